@@ -90,6 +90,8 @@ type ChanV struct {
 	Cap    int
 	Closed bool
 	ET     types.Type
+	Sent   int // unbuffered sends staged so far (scheduler mode)
+	Recvd  int // values taken by receivers
 }
 
 type Poison struct{ Why string }
